@@ -12,6 +12,7 @@ package main
 
 import (
 	"go/ast"
+	"strings"
 	"go/types"
 	"sort"
 
@@ -291,4 +292,73 @@ func (w *World) closureInlinable(fn *ssa.Function) bool {
 		}
 	}
 	return ifs <= maxInlineIfs
+}
+
+// initialValue: the value the package initialiser gives to a package-level
+// variable (or to an element of a literal it builds), when no other function
+// ever stores to that variable.  Lets table-driven code be read as the table.
+func (w *World) initialValue(lv *T) (*T, bool) {
+	root := lv
+	for root.Op == "sel" || root.Op == "elem" {
+		root = root.A[0]
+	}
+	if root.Op != "global" && !(root.Op == "new" && strings.HasPrefix(root.S, "init.")) {
+		return nil, false
+	}
+	if w.globalInit == nil {
+		w.globalInit = map[string]*T{}
+		w.globalRO = map[string]bool{}
+		for _, pk := range []*ssa.Package{w.SLib, w.SCmd} {
+			initFn := pk.Func("init")
+			if initFn == nil || len(initFn.Blocks) == 0 {
+				continue
+			}
+			ex := &Explorer{W: w, Fn: initFn, MaxPaths: 64, NoInline: true}
+			ps, err := ex.Run()
+			if err != nil {
+				continue
+			}
+			// the initialiser is guarded by "already initialised?": the path that does the work
+			// is the one that does not return at once; any further branching means no table is read
+			var work []*Path
+			for _, p := range ps {
+				if len(p.Events) > 1 {
+					work = append(work, p)
+				}
+			}
+			if len(work) != 1 {
+				continue
+			}
+			for k, v := range work[0].Heap {
+				w.globalInit[k] = v
+			}
+		}
+		// globals some function other than an initialiser stores to are not tables
+		written := map[string]bool{}
+		for _, f := range w.Funcs {
+			if f.Name() == "init" {
+				continue
+			}
+			for k := range w.mods[f] {
+				if strings.HasPrefix(k, "global:") {
+					written[strings.TrimPrefix(k, "global:")] = true
+				}
+			}
+			if w.modUnk[f] {
+				// an unknown callee cannot reach unexported package variables; exported ones are excluded below
+			}
+		}
+		for _, pk := range []*ssa.Package{w.SLib, w.SCmd} {
+			for name, mem := range pk.Members {
+				if g, ok := mem.(*ssa.Global); ok && !written[g.Name()] && !ast.IsExported(name) {
+					w.globalRO[g.Name()] = true
+				}
+			}
+		}
+	}
+	if root.Op == "global" && !w.globalRO[root.S] {
+		return nil, false
+	}
+	v, ok := w.globalInit[lv.Key()]
+	return v, ok
 }
